@@ -591,7 +591,7 @@ class OwnAnalysis:
         if k == "CallExpr":
             return self.handle_call(st, n, None)
         if k == "ReturnStmt":
-            if n.children:
+            if n.children and not n.j.get("inlined_return"):        # the `return` of an inlined helper hands nothing to a caller
                 loc = self.loc_of(n.children[0])
                 if loc is not None:
                     obj = st.env.get(loc)
